@@ -18,7 +18,8 @@ func init() {
 			"(B) no accumulate-then-forward call (io.ReadAll, io.ReadFull/ReadAtLeast, Buffer.ReadFrom, bufio writers, io.Copy into a buffer, DumpResponse) in module code on the response path, enumerated over the static call closure of the path's entry points; " +
 			"(W) write-through: every ResponseWriter.Write forwards its own slice with exactly one underlying Write, outside any loop and without channel hand-off; every io.Reader on the upload path performs at most one underlying Read per call, outside any loop; " +
 			"(P) the body travels through two synchronous io.Pipes whose ends are wired as designed; (C) chunked framing is forced before serialisation; (F) the reverse proxy's FlushInterval is negative or in (0,1s]; " +
-			"(M) the HTML shim splice does exactly one bounded Read before it returns; (S) the response is published from WriteHeader (not at Close).",
+			"(M) the HTML shim splice does exactly one bounded Read before it returns; (S) the response is published from WriteHeader (not at Close). " +
+			"(T) no buffering/non-transparent stdlib handler (TimeoutHandler, ServeMux, …) is built into the chain and writer types offer no new optional interfaces.",
 		Assumptions: []string{"io.Pipe is synchronous and unbuffered; net/http's chunked writer flushes per write; httputil.ReverseProxy honours FlushInterval"},
 		Run:         runC05,
 	})
@@ -123,6 +124,9 @@ func runC05(c *Ctx) {
 	c.Rule("C05.C", "forced chunked framing (= C03.C)", 1)
 	c.Rule("C05.F", "reverse proxy flush interval", 1)
 	c.Rule("C05.M", "the HTML shim splice does one bounded read", 2)
+	c.Rule("C05.T", "no buffering stdlib handler on the pass-through chain; writer types offer no new optional interfaces", 5)
+	ruleTransparentChain(c, p, "C05.T")
+	ruleWriterMethodSets(c, p, "C05.T")
 	c.Rule("C05.S", "the response is published as soon as the status is set", 1)
 
 	// ---- C05.B
